@@ -18,7 +18,7 @@ mod model;
 fn main() {
     let args = Args::parse();
     explorer::quiet_panics();
-    let code = match args.property.as_str() {
+    let code = explorer::guard_main(&args.property, || match args.property.as_str() {
         "C31" => c31::run(Report::new(&args, "model_checking")),
         "C32" => c32::run(Report::new(&args, "model_checking")),
         "C33" => c33::run(Report::new(&args, "model_checking")),
@@ -26,6 +26,6 @@ fn main() {
             eprintln!("vh-auth: unknown property {other}");
             2
         }
-    };
+    });
     std::process::exit(code);
 }
